@@ -1417,8 +1417,22 @@ func (st *c15State) clientEarly(c *c15Cli) {
 				if err != nil || need > 0 || rp.Rep == 0 {
 					st.v("reply", "success-or-garbage-to-incomplete-request", fmt.Sprintf("%s: request %s is not a complete valid request, proxy answered %s", who, "(truncated or unknown ATYP)", hexs(c.rbuf)))
 				}
-			} else if q.Have >= 4 && !q.AtypKnown {
-				st.observe("unknown ATYP: the proxy sends no reply (RFC 1928: X'08') and leaves the connection open")
+			}
+			if q.Have >= 4 && !q.AtypKnown && q.Ver == 5 && q.Rsv == 0 {
+				// RFC 1928 section 6: an address type the server cannot read is answered with X'08',
+				// and the connection is terminated after a failure reply
+				res.Probe("unknown-address-type-replies-checked")
+				rp, need, err := world.ParseSocksReply(c.rbuf)
+				switch {
+				case len(c.rbuf) == 0:
+					st.v("address-type-reply", "missing", fmt.Sprintf("%s: request with ATYP %#02x got no reply (RFC 1928: X'08' address type not supported)", who, q.Atyp))
+				case err != nil || need > 0 || rp.Len != len(c.rbuf):
+					st.v("address-type-reply", "malformed", fmt.Sprintf("%s: reply to ATYP %#02x is not one well-formed reply: %s (%v)", who, q.Atyp, hexs(c.rbuf), err))
+				case rp.Rep != 8:
+					st.v("address-type-reply", "not-address-type-not-supported", fmt.Sprintf("%s: reply to ATYP %#02x has REP %#02x, RFC 1928 says 08", who, q.Atyp, rp.Rep))
+				case !c.conn.ServerClosed():
+					st.v("closure", "refused-request-connection-left-open", fmt.Sprintf("%s: after the address-type-not-supported reply the proxy leaves the connection open (RFC 1928: MUST terminate)", who))
+				}
 			}
 			res.Probe("invalid-requests")
 			c.state = c15End
@@ -1435,8 +1449,8 @@ func (st *c15State) clientEarly(c *c15Cli) {
 			case rp.Rep != 7:
 				st.v("command-reply", "not-command-not-supported", fmt.Sprintf("%s: reply to CMD %#02x has REP %#02x, RFC 1928 says 07", who, q.Cmd, rp.Rep))
 			}
-			if !c.conn.ServerClosed() {
-				st.observe("after a command-not-supported reply the proxy leaves the connection open (RFC 1928: MUST terminate within 10 s)")
+			if !c.conn.ServerClosed() && len(c.rbuf) > 0 && err == nil && need == 0 {
+				st.v("closure", "refused-request-connection-left-open", fmt.Sprintf("%s: after the command-not-supported reply the proxy leaves the connection open (RFC 1928: MUST terminate)", who))
 			}
 			c.state = c15End
 		default:
